@@ -56,6 +56,9 @@ type InstCfg struct {
 	Permissions map[string][]*checker.Permissions
 	AdminIPs    []string
 	Plan        *FaultPlan
+	// PeriodicPruning is main.go's server.rules.periodic-pruning (process layers only: the collection
+	// timer's period is drawn from crypto/rand by the code under test).
+	PeriodicPruning bool
 	// Process, when set, is built by the caller (W2); W1 uses none.
 	MakeProcess func(inst *Instance) (process.Service, error)
 }
@@ -104,6 +107,7 @@ func NewInstance(s *Sched, name string, cfg InstCfg) (*Instance, error) {
 	rulesSvc, err := standardrules.New(ctx,
 		standardrules.WithStoragePath(cfg.Dir),
 		standardrules.WithAdminIPs(cfg.AdminIPs),
+		standardrules.WithPeriodicPruning(cfg.PeriodicPruning),
 		standardrules.WithLogLevel(zerolog.Disabled),
 	)
 	if err != nil {
@@ -217,7 +221,11 @@ func (i *Instance) Close() {
 
 // ClientCtx builds the context the gRPC interceptors would have produced for a client.
 func (i *Instance) ClientCtx(client, ip string) context.Context {
-	ctx := i.Ctx
+	return ClientCtxFrom(i.Ctx, client, ip)
+}
+
+// ClientCtxFrom builds a request context on a given parent.
+func ClientCtxFrom(ctx context.Context, client, ip string) context.Context {
 	if client != "" {
 		ctx = context.WithValue(ctx, &interceptors.ClientName{}, client)
 	}
